@@ -47,7 +47,7 @@ inductive Event (G : Type)
 /-- A processor with no live party (before round1 exists). -/
 def Proc.idle {G : Type} : Proc G :=
   { party := { phase := .r1, rs := RState.init [] [], errPending := false, donePending := false },
-    inManager := false, done := false, stray := [], ending := none }
+    inManager := false, done := false, stray := Lru.empty futureCap, ending := none }
 
 structure Life (G : Type) where
   stage : Stage
@@ -57,8 +57,9 @@ structure Life (G : Type) where
   stored : List (VMsg G)
   /-- `round0.processed` -/
   processed0 : List MsgId
-  /-- `Processor.futureMessages[bh.Hash]`: filed under the block hash before a party was registered there -/
-  pfuture : List (VMsg G)
+  /-- `Processor.futureMessages` while no round1 exists: an LRU of 50 keys, each holding the verify
+      messages parked under it (filed under a key no party is registered for) -/
+  parked : Lru (List (VMsg G))
   /-- the pre-change key is in `finishedParty` (set by the changeId step) -/
   key0Done : Bool
   proc : Proc G
@@ -68,8 +69,11 @@ structure Life (G : Type) where
   hashDone : Bool := false
 
 def Life.new {G : Type} (key0 : Data) : Life G :=
-  { stage := .noParty, key0 := key0, stored := [], processed0 := [], pfuture := [], key0Done := false,
+  { stage := .noParty, key0 := key0, stored := [], processed0 := [], parked := Lru.empty futureCap, key0Done := false,
     proc := Proc.idle, timedOut := false, rejected := false }
+
+/-- what is parked under the block hash -/
+def Life.pfuture {G : Type} (l : Life G) (env : Env) : List (VMsg G) := (l.parked.peek env.hash).getD []
 
 /-- `round0.CanAccept` (= 1 for a verify message whose id is new) + `baseParty.StoreMessage`. -/
 def storeRule {G : Type} (processed0 : List MsgId) (stored : List (VMsg G)) (m : VMsg G) : List (VMsg G) :=
@@ -85,8 +89,10 @@ def dispatch {G : Type} (c : Crypto G) (env : Env) (pr : Proc G) : List (VMsg G)
 (in the order `ord` gives: Go map iteration), then the reaper's changeId step. -/
 def Life.enterSigning {G : Type} (c : Crypto G) (env : Env) (ord : List (VMsg G) → List (VMsg G))
     (l : Life G) (processed0 : List MsgId) (stored : List (VMsg G)) (pending : List (VMsg G)) : Life G :=
-  { l with stage := .signing, processed0 := processed0, stored := [], pfuture := [], key0Done := true,
-           proc := dispatch c env (Proc.initWith c env processed0 (ord stored)) pending }
+  -- the reaper's changeId step: `Get(realKey)`, `Remove(realKey)`; the rest of the cache lives on
+  { l with stage := .signing, processed0 := processed0, stored := [], parked := Lru.empty futureCap, key0Done := true,
+           proc := dispatch c env
+             { Proc.initWith c env processed0 (ord stored) with stray := l.parked.remove env.hash } pending }
 
 def Life.onCast {G : Type} (c : Crypto G) (env : Env) (ord : List (VMsg G) → List (VMsg G))
     (l : Life G) (mid : MsgId) (v : Verdict) : Life G :=
@@ -95,7 +101,7 @@ def Life.onCast {G : Type} (c : Crypto G) (env : Env) (ord : List (VMsg G) → L
     match v with
     | .reject => { l with stage := .gone, processed0 := p0, rejected := true, key0Done := true }
     | .wait => { l with stage := .r0, processed0 := p0 }
-    | .accept => l.enterSigning c env ord p0 l.stored l.pfuture
+    | .accept => l.enterSigning c env ord p0 l.stored (l.pfuture env)
   match l.stage with
   | .noParty => go l
   | .r0 => if l.processed0.contains mid then l else go l
@@ -125,15 +131,16 @@ def Life.onPacket {G : Type} (c : Crypto G) (env : Env) (ord : List (VMsg G) →
       if m.blockHash == env.hash then
         -- round0 stores it, then the advance loop runs round1.Start over everything stored
         l.enterSigning c env ord l.processed0 (storeRule l.processed0 l.stored m) []
-      else l
+      else if m.blockHash == l.key0 then l   -- the pre-change key is finished since changeId: dropped
+      else { l with parked := park l.parked m.blockHash m }
     | .r0 =>
       if m.blockHash == l.key0 then { l with stored := storeRule l.processed0 l.stored m }
-      else if m.blockHash == env.hash then { l with pfuture := l.pfuture ++ [m] }
-      else l
-    | .noParty => if m.blockHash == env.hash then { l with pfuture := l.pfuture ++ [m] } else l
+      else { l with parked := park l.parked m.blockHash m }
+    | .noParty => { l with parked := park l.parked m.blockHash m }
     | .gone =>
-      -- the reaper remembered the party's id at that moment; the other key has no party: filed for later
-      if m.blockHash == env.hash && !l.hashDone then { l with pfuture := l.pfuture ++ [m] } else l
+      -- the reaper remembered the party's id at that moment as finished; any other key has no party: parked
+      if (m.blockHash == l.key0 && l.key0Done) || (m.blockHash == env.hash && l.hashDone) then l
+      else { l with parked := park l.parked m.blockHash m }
 
 /-- The reaper's timeout branch (and, for a party in round0, the error branch) removes the party
 and remembers its current id as finished. -/
@@ -153,7 +160,8 @@ def Life.step {G : Type} (c : Crypto G) (env : Env) (ord : List (VMsg G) → Lis
     -- the reaper's changeId step hands the messages filed under the hash to the party, one by one
     let l' := l.onNotify v
     if l'.stage = .r0ready ∧ l.stage = .r0 then
-      l'.pfuture.foldl (fun acc m => acc.onPacket c env ord (.ok m)) { l' with pfuture := [] }
+      (l'.pfuture env).foldl (fun acc m => acc.onPacket c env ord (.ok m))
+        { l' with parked := l'.parked.remove env.hash }
     else l'
   | .packet b w => l.onPacket c (env.withChain b) ord w
   | .timeout => l.onTimeout
